@@ -241,6 +241,7 @@ def step (line : String) : String :=
           encRead (readAll (mkCfg pol enc (toString (t.length + 1)) d "~") false none (if t.isEmpty then [] else [t]))
       s!"{encWrite w} | {rd}"
   | ["cleanup", t] => encStr (cleanupQuery (decStr t))
+  | ["seplitjs", t] => let r := separateLiteralsJs (decStr t); s!"{encStr r.1} {encList r.2}"
   | ["seplit", t] => let r := separateLiterals (decStr t); s!"{encStr r.1} {encList r.2}"
   | ["combine", e, lits] => encStr (combineLiterals (decStr e) (decList lits))
   | ["redundant", t] => encStr (removeRedundantTableName (decStr t))
